@@ -12,7 +12,9 @@ Property theorems.  Sections:
   3. decision logic of the trainers (generated from CSvmTrainer.h): `two_class_dispatch`,
      `ova_is_binary_per_class`;
   4. the dedicated linear solver (`Model/McLinear.lean`, QpBoxLinear): `linear_w_inv`,
-     `linear_box_inv` along every schedule, `linear_step_gain_nonneg_partial`.
+     `linear_box_inv` along every schedule, `linear_step_gain_nonneg_partial`;
+  5. configuration invariance in exact arithmetic: `mc_kkt_eps_near_optimal`,
+     `two_stopped_configurations_close`, `stopped_state_near_optimal`.
 
 Models: `Model/McSparse.lean`, `Model/McSmo.lean`; helper lemmas: `Lemmas/McTables.lean`.
 Tie to the C++: translator T2 + correspondence K-C16 (checks/c16.py).
@@ -20,6 +22,7 @@ Tie to the C++: translator T2 + correspondence K-C16 (checks/c16.py).
 import SharkVerif.Lemmas.McTables
 import SharkVerif.Lemmas.McSmoAll
 import SharkVerif.Lemmas.McLinear
+import SharkVerif.Lemmas.McOptimality
 namespace SharkVerif.C16
 open SharkVerif.Mc SharkVerif.Gen.McTables SharkVerif.McTables
 
@@ -244,5 +247,55 @@ theorem linear_step_gain_nonneg_partial (D : LinData Rat) (s : LinState Rat) (i 
 example : ∃ (D : LinData Rat) (s : LinState Rat), 0 < D.xsq 0 + D.reg ∧ 0 ≤ s.alpha 0 ∧ s.alpha 0 ≤ D.bound :=
   ⟨{ n := 1, d := 1, x := fun _ _ => 1, ysign := fun _ => 1, xsq := fun _ => 1, bound := 1, reg := 0, offset := 0 },
    linInit, by norm_num, by simp only [linInit]; norm_num, by simp only [linInit]; norm_num⟩
+
+
+/-! ## 5. Configuration invariance (shrinking on/off, cache size, precomputed matrix, example order) -/
+
+/-- **kkt_eps_near_optimal**: for a concave quadratic dual (`Q` symmetric positive semidefinite) over the box
+`[0,C]^N`, every feasible point that satisfies the KKT conditions up to `eps` — which is what the solver's stopping
+rule `checkKKT() ≤ eps` asserts of its final point — has an objective within `eps·N·C` of EVERY feasible point, in
+particular of the optimum.  No assumption on how the point was reached: shrinking, cache size, working-set
+sequence and the order of the examples do not enter. -/
+theorem mc_kkt_eps_near_optimal (N : Nat) (lin : Nat → Rat) (Q : Nat → Nat → Rat) (C eps : Rat)
+    (hC : 0 ≤ C) (heps : 0 ≤ eps) (hsym : ∀ v < N, ∀ w < N, Q v w = Q w v) (hpsd : PSD N Q)
+    (a b : Nat → Rat) (ha : Feasible N C a) (hb : Feasible N C b)
+    (hk : KKTeps N C eps a (dualGrad N lin Q a)) :
+    dualObj N lin Q b - dualObj N lin Q a ≤ eps * N * C :=
+  kkt_eps_near_optimal N lin Q C eps hC heps hsym hpsd a b ha hb hk
+
+/-- hence any two configurations that both stop with accuracy `eps` on the same dual reach objectives within
+`eps·N·C` of each other (`N = n·P` variables) — the bound the trainer-level comparison uses as its tolerance -/
+theorem two_stopped_configurations_close (N : Nat) (lin : Nat → Rat) (Q : Nat → Nat → Rat) (C eps : Rat)
+    (hC : 0 ≤ C) (heps : 0 ≤ eps) (hsym : ∀ v < N, ∀ w < N, Q v w = Q w v) (hpsd : PSD N Q)
+    (a b : Nat → Rat) (ha : Feasible N C a) (hb : Feasible N C b)
+    (hka : KKTeps N C eps a (dualGrad N lin Q a)) (hkb : KKTeps N C eps b (dualGrad N lin Q b)) :
+    |dualObj N lin Q b - dualObj N lin Q a| ≤ eps * N * C :=
+  two_kkt_points_close N lin Q C eps hC heps hsym hpsd a b ha hb hka hkb
+
+/-- the link to the decomposition model: in a state reached by ANY valid history that ends with all variables
+active (after `unshrink`, as in `QpSolver::solve` before its final KKT test), the STORED gradient is the true
+gradient (`mc_grad_inv`), so an eps-KKT stored gradient certifies near-optimality of the stored `alpha` -/
+theorem stopped_state_near_optimal (s : McBox Rat) (h : FullInv s) (hall : s.activeVar = s.P * s.n)
+    (eps : Rat) (heps : 0 ≤ eps)
+    (hsym : ∀ v < s.P * s.n, ∀ w < s.P * s.n, s.Q v w = s.Q w v) (hpsd : PSD (s.P * s.n) s.Q)
+    (hk : KKTeps (s.P * s.n) s.C eps s.alpha s.grad)
+    (b : Nat → Rat) (hbf : Feasible (s.P * s.n) s.C b) :
+    dualObj (s.P * s.n) s.lin s.Q b - dualObj (s.P * s.n) s.lin s.Q s.alpha ≤ eps * (s.P * s.n : Nat) * s.C :=
+  state_near_optimal s hall h.grad h.box h.C_nonneg eps heps hsym hpsd hk b hbf
+
+/-- Gram matrices are positive semidefinite (the hypothesis `PSD` above is satisfiable by every kernel matrix of
+explicit features; for `Q = M ⊗ K` PSD-ness follows from `M_is_gram_of_nu` and a PSD `K` — that Kronecker step is
+NOT formalised here and stays a hypothesis of `stopped_state_near_optimal`) -/
+theorem gram_is_psd (N T : Nat) (F : Nat → Nat → Rat) : PSD N (fun v w => ∑ t ∈ Finset.range T, F v t * F w t) :=
+  psd_of_gram N T F
+
+/-- non-vacuity of the hypotheses of `mc_kkt_eps_near_optimal`: one variable, `Q = 1`, `lin = 1`, `C = 2`:
+`a = 1` is exactly optimal (gradient 0) -/
+example : ∃ (a : Nat → Rat), Feasible 1 2 a ∧ KKTeps 1 2 0 a (dualGrad 1 (fun _ => 1) (fun _ _ => 1) a) ∧
+    PSD 1 (fun _ _ => (1 : Rat)) := by
+  refine ⟨fun _ => 1, ?_, ?_, ?_⟩
+  · intro v _; norm_num
+  · intro v _; simp [dualGrad]
+  · intro x; simp; nlinarith [sq_nonneg (x 0)]
 
 end SharkVerif.C16
